@@ -32,6 +32,7 @@ SUKFCorrection::SUKFCorrection
 
 
 SUKFCorrection::SUKFCorrection(SUKFCorrection&& sukf_correction) noexcept :
+    GaussianCorrection(std::move(sukf_correction)),
     measurement_model_(std::move(sukf_correction.measurement_model_)),
     ut_weight_(sukf_correction.ut_weight_),
     measurement_sub_size_(sukf_correction.measurement_sub_size_),
